@@ -444,6 +444,8 @@ def verify_unit(index: RepoIndex, contract: Contract, only=None) -> list[UnitRes
         t0 = time.time()
         ctx = VerifyCtx(index, contract, variant)
         res = UnitResult(ctx.unit)
+        from . import ops as _ops
+        _ops.ABSTRACT_DIV = bool(getattr(contract, "abstract_division", False))
         try:
             _run(ctx, contract)
         except OutOfSubset as e:
